@@ -28,3 +28,32 @@ def api_step(op, it, ot, kind, ch, cap=3):
                stubs=[AE_STUB, X87_STUB, ENV_STUB],
                funcs=['soxr.c:soxr_process', 'soxr.c:soxr_output', 'soxr.c:soxr_input', 'soxr.c:soxr_output_no_callback'])
 
+
+
+KISSAT = ['--external-sat-solver', 'kissat']
+DRV_OPS = {0: 'input', 1: 'process_output', 2: 'flush', 3: 'delay'}
+DRV_STUB = ('cr.c driver over abstract stage kernels (contract: consume <= available, append <= 3, progress once input_size is buffered - '
+            'the L3 kernel obligations) and FIFO payload abstracted (memcpy/memmove/memset no-ops, unbounded allocation; fifo_lemma covers payload and growth)')
+
+
+def drv(op, ns=1, item=4, nbits=31, ratio=None, ratio_bits=None, solver=None, timeout=300, tiers=('quick', 'thorough')):
+    """one cr.c driver call (cr_drv.c) from any state satisfying the accounting invariant"""
+    defs = ['-DVF_OP=%d' % op, '-DVF_NS=%d' % ns, '-DVF_ITEM=%d' % item, '-DVF_NBITS=%d' % nbits]
+    name = 'drv_%s_ns%d_r%d_n%d' % (DRV_OPS[op], ns, item, nbits)
+    b = 'frames in/out < 2^%d, request <= 4, stages %d, per-stage input_size <= 3, io_ratio ' % (nbits, ns)
+    if ratio is not None:
+        defs.append('-DVF_RATIO=%s' % ratio)
+        name += '_ratio%s' % str(ratio).replace('.', 'p').replace('/', 'o').replace('(', '').replace(')', '')
+        b += '== %s' % ratio
+    elif ratio_bits:
+        defs.append('-DVF_RATIO_BITS=%d' % ratio_bits)
+        name += '_rb%d' % ratio_bits
+        b += 'any multiple of 2^-%d in [2^-12, 2^12]' % (ratio_bits - 12)
+    else:
+        b += 'any double in [2^-12, 2^12]'
+    return Obl(name=name, src='cr_drv.c', defs=defs, unwind=5,
+               unwindset=['_soxr_process.0:6', 'stage_process.0:5'], object_bits=11, extra=list(solver or []), timeout=timeout, tiers=tiers,
+               desc='cr.c %s: one call from any state satisfying the accounting invariant' % DRV_OPS[op], bounds=b,
+               stubs=[DRV_STUB],
+               funcs=['cr.c:_soxr_input', 'cr.c:_soxr_process', 'cr.c:stage_process', 'cr.c:_soxr_output', 'cr.c:_soxr_flush',
+                      'cr.c:_soxr_delay', 'fifo.h:fifo_reserve', 'fifo.h:fifo_read', 'fifo.h:fifo_occupancy'])
